@@ -361,3 +361,73 @@ Proof.
   - constructor; [cbn; lia|]. rewrite Forall_forall in *. intros e He. specialize (Hall e He). cbn in *. lia.
   - constructor. now apply filter_map_perm.
 Qed.
+
+(* ================================================================== the executable reading agrees with the Prop *)
+Lemma prim_eqb_sound a b : prim_eqb a b = true -> a = b.
+Proof. destruct a, b; cbn; congruence. Qed.
+Lemma fmt_eqb_sound a b : fmt_eqb a b = true -> a = b.
+Proof. destruct a, b; cbn; congruence. Qed.
+Lemma tname_eqb_sound a b : tname_eqb a b = true -> a = b.
+Proof.
+  destruct a, b; cbn; try discriminate; intros H; f_equal; [now apply prim_eqb_sound|now apply fmt_eqb_sound].
+Qed.
+Lemma tnames_eqb_sound l : forall m, list_eqb tname_eqb l m = true -> l = m.
+Proof.
+  induction l as [|x l IH]; intros [|y m] H; cbn in H; try discriminate; [reflexivity|].
+  apply andb_true_iff in H. destruct H as [H1 H2]. f_equal; [now apply tname_eqb_sound|now apply IH].
+Qed.
+Lemma tbase_eqb_sound a b : tbase_eqb a b = true -> a = b.
+Proof.
+  destruct a, b; cbn; try discriminate; intros H; f_equal;
+    [now apply prim_eqb_sound|now apply fmt_eqb_sound|now apply tnames_eqb_sound|now apply tname_eqb_sound].
+Qed.
+
+Fixpoint lit_eqb_sound (a : lit) {struct a} : forall b, lit_eqb a b = true -> a = b.
+Proof.
+  destruct a as [x|x|x|x|l]; intros [y|y|y|y|m] H; cbn in H; try discriminate.
+  - apply Z.eqb_eq in H. now subst.
+  - apply String.eqb_eq in H. now subst.
+  - apply String.eqb_eq in H. now subst.
+  - apply Bool.eqb_prop in H. now subst.
+  - f_equal. revert m H.
+    refine ((fix go (l : list lit) : forall m,
+               (fix go' (l m : list lit) : bool :=
+                  match l, m with
+                  | [], [] => true
+                  | x :: l', y :: m' => lit_eqb x y && go' l' m'
+                  | _, _ => false
+                  end) l m = true -> l = m :=
+               match l with
+               | [] => fun m => match m with [] => fun _ => eq_refl | _ :: _ => fun H => _ end
+               | x :: l' => fun m => match m with [] => fun H => _ | y :: m' => fun H => _ end
+               end) l).
+    + discriminate H.
+    + discriminate H.
+    + apply andb_true_iff in H. destruct H as [H1 H2].
+      rewrite (lit_eqb_sound x y H1), (go l' m' H2). reflexivity.
+Qed.
+
+Lemma dflt_eqb_sound a b : dflt_eqb a b = true -> a = b.
+Proof.
+  destruct a, b; cbn; try discriminate; try reflexivity. intros H. f_equal. now apply lit_eqb_sound.
+Qed.
+Lemma ostring_eqb_sound a b : ostring_eqb a b = true -> a = b.
+Proof.
+  destruct a, b; cbn; try discriminate; try reflexivity. intros H. apply String.eqb_eq in H. now subst.
+Qed.
+
+Theorem spellsb_sound i t f : spellsb i t f = true -> spells i t f.
+Proof.
+  unfold spellsb, spells. rewrite !andb_true_iff.
+  intros [[[[[[[[H1 H2] H3] H4] H5] H6] H7] H8] H9].
+  repeat split.
+  - now apply String.eqb_eq.
+  - now apply Bool.eqb_prop.
+  - now apply tbase_eqb_sound.
+  - now apply Bool.eqb_prop.
+  - now apply Bool.eqb_prop.
+  - now apply dflt_eqb_sound.
+  - now apply ostring_eqb_sound.
+  - now apply String.eqb_eq.
+  - now apply Z.eqb_eq.
+Qed.
